@@ -23,7 +23,7 @@ def run(repo, tier) -> Result:
     res.assumptions = ["candles already tagged were converted by the same candlestick type"]
     check_ha("C11", res, repo)
     check_conversion_typestate("C11", res, repo)
-    check_resume("C11", res, repo.method("hexital.core.candlestick_type", "CandlestickType", "_find_conv_index"), "<param0>", "tag")
+    check_resume("C11", res, repo.method("hexital.core.candlestick_type", "CandlestickType", "_find_conv_index"), "<param0>", "tag", repo=repo)
     check_merge("C11", res, repo)
     check_tasks_order("C11", res, repo, need=(("collapse", "convert"), ("convert", "trim")))
     check_append_order("C11", res, repo)
